@@ -264,7 +264,16 @@ class DIMSEServiceProvider:
         if self.message is None:
             self.message = DIMSEMessage()
 
-        if self.message.decode_msg(primitive, self.assoc):
+        try:
+            complete = self.message.decode_msg(primitive, self.assoc)
+        except Exception as exc:
+            # e.g. a command set that cannot be decoded or has no Command Field
+            LOGGER.error("Received an invalid DIMSE message")
+            LOGGER.exception(exc)
+            self.dul.event_queue.put("Evt19")
+            return
+
+        if complete:
             # Trigger event
             evt.trigger(self.assoc, evt.EVT_DIMSE_RECV, {"message": self.message})
 
